@@ -391,7 +391,18 @@ func (s *scen) block() ([]ev.Violation, string) {
 	return viol, fmt.Sprintf("closed:%s(all=%s,revealed=%s)", outcome, expAll, expRev)
 }
 
+// Apply wraps the vote oracle with C09's supply guard: conflict detection, voting and resolution (slashing of the
+// losing side, rewards to voters) must never increase the total supply of the bond denomination.
 func (s *scen) Apply(op int) bfs.Step {
+	before := s.w.Supply()
+	st := s.applyVote(op)
+	if after := s.w.Supply(); after.GT(before) {
+		st.Viol = append(st.Viol, ev.Violation{Property: "C09", Key: "supply-increased:conflict:" + s.ops[op].name, What: fmt.Sprintf("total supply rose from %s to %s in %s", before, after, s.ops[op].name)})
+	}
+	return st
+}
+
+func (s *scen) applyVote(op int) bfs.Step {
 	o := s.ops[op]
 	w := s.w
 	switch o.kind {
